@@ -37,6 +37,11 @@ POOL = {
     "sub_ab": "def sub(a: bool, b: bool) -> bool:\n    return a and not b",
     "sub_ba": "def sub(b: bool, a: bool) -> bool:\n    return a and not b",
     "sub_or": "def sub(a: bool, b: bool) -> bool:\n    return a or not b",
+    # sources that define an inner helper (same helper name, different bodies), and one with compile-time parameters
+    "inner_not": "def prog(a: bool, b: bool) -> bool:\n    def flip(x: bool) -> bool:\n        return not x\n    return flip(a) and b",
+    "inner_id": "def prog2(a: bool, b: bool) -> bool:\n    def flip(x: bool) -> bool:\n        return x\n    return flip(a) and b",
+    "inner_free": "def prog3(a: bool, b: bool) -> bool:\n    return flip(a) and b",
+    "parin": "def parin(k: Parameter[bool], a: bool) -> bool:\n    def flip(x: bool) -> bool:\n        return not x\n    return flip(a) if k else a",
     "subq_2": "def subq(a: Qint[2]) -> Qint[2]:\n    return a",
     "subq_4": "def subq(a: Qint[2]) -> Qint[4]:\n    return a",
     "call_sub": "def g(x: bool, y: bool) -> bool:\n    return sub(x, y)",
@@ -49,7 +54,7 @@ ANYQF = PRED2 + BOOL2 + ["inc", "copy", "sim", "const"]
 
 OPS = ["compile", "compile_fast", "bind", "bindl", "compose", "oraclize", "grover", "grover_el", "dj", "bv", "simon",
        "qasm", "qiskit", "gate", "sympy", "decompile", "decopt", "truth_table", "recompile", "logicfun", "repr",
-       "compose_with", "decompile_shared", "native"]
+       "compose_with", "decompile_shared", "native", "from_function", "bindin"]
 
 
 def fp_circuit(qc):
@@ -154,6 +159,13 @@ class World:
             u = self.qf.get("par") or qlassf(POOL["par"])
             self.qf["par"] = u
             return fp_qf(u.bind(c=op[2]))
+        if kind == "from_function":
+            from qlasskit import QlassF
+            return fp_qf(QlassF.from_function(POOL[key]))
+        if kind == "bindin":
+            u = self.qf.get("parin") or qlassf(POOL["parin"])
+            self.qf["parin"] = u
+            return fp_qf(u.bind(k=op[2]))
         if kind == "bindl":
             u = self.qf.get("parl") or qlassf(POOL["parl"])
             self.qf["parl"] = u
@@ -243,7 +255,7 @@ def fp_unbound(u):
 def random_op(rng):
     kind = rng.choice(OPS)
     if kind in ("compile", "compile_fast"):
-        return (kind, rng.choice(list(k for k in POOL if k not in ("par", "parl", "caller", "call_sub", "call_subq"))))
+        return (kind, rng.choice(list(k for k in POOL if k not in ("par", "parl", "parin", "inner_free", "caller", "call_sub", "call_subq"))))
     if kind == "bind":
         return (kind, "par", rng.random() < 0.5)
     if kind == "bindl":
@@ -268,6 +280,10 @@ def random_op(rng):
         return (kind, caller, rng.choice(SUBS[caller]))
     if kind == "decompile_shared":
         return (kind, rng.choice(ANYQF))
+    if kind == "from_function":
+        return (kind, rng.choice(["inner_not", "inner_id", "inner_free", "and", "eq2"]))
+    if kind == "bindin":
+        return (kind, "parin", rng.random() < 0.5)
     if kind == "native":
         return (kind, rng.choice(["draw", "decompile", "decopt", "repeat", "copy", "plus"]))
     if kind == "gate":
@@ -390,6 +406,9 @@ def fixed_histories():
          ("compose_with", "call_sub", "sub_ab")],
         [("compose_with", "call_subq", "subq_2"), ("compose_with", "call_subq", "subq_4"), ("compose_with", "call_subq", "subq_2")],
         [("decompile_shared", "eq2"), ("decompile_shared", "and"), ("decompile", "eq2"), ("decompile_shared", "eq2"), ("decopt", "and")],
+        [("from_function", "inner_not"), ("from_function", "inner_not"), ("from_function", "inner_id"), ("from_function", "inner_free"),
+         ("from_function", "and")],
+        [("bindin", "parin", True), ("bindin", "parin", False), ("bindin", "parin", True), ("from_function", "inner_free")],
         [("native", "draw"), ("native", "decompile"), ("native", "draw"), ("native", "repeat"), ("native", "decopt"), ("native", "copy"),
          ("native", "plus"), ("native", "draw")],
     ]
